@@ -215,10 +215,11 @@ pub fn gen_seq(seed: u64, ncases: u64, maxlen: u64, zero_ok: bool, rebuilds: boo
         if zero_ok && !rebuilds && r.chance(1, 6) {
             // set-aside scenario: several makers with nothing on display and a hidden part (a match steps over
             // them and re-queues them), a match, then same-price amends that give them a display again, a match
-            let k = r.range(2, 4);
+            // (2-4 such makers, sometimes 9, 17 or 40: more than any small fixed buffer would hold)
+            let k = *r.pick(&[2u64, 3, 4, 2, 3, 4, 9, 17, 40]);
             let mut idsv = Vec::new();
             for i in 0..k {
-                let id = pool_id(40 + i);
+                let id = pool_id(300 + i);
                 let o = mk_order(5, id, price, 0, r.range(3, 20), 0, None, true, Side::Sell, 1 + i, TimeInForce::Gtc);
                 total += o.hidden_quantity() as u128;
                 out.push(format!("add {}", show_order(&o)));
@@ -767,7 +768,7 @@ pub fn gen_conc(seed: u64, ncases: u64, scheds_per_prog: u64, out: &Sink) {
                         1 => format!("same.replace~{}~{}~{}", show_id(&target), r.range(0, 14), show_side(if r.chance(1, 2) { Side::Buy } else { Side::Sell })),
                         _ => format!("amend~{}~{}", show_id(&target), r.range(0, 14)),
                     },
-                    88..=95 => format!("read~{}", r.pick(&["vis", "hid", "cnt", "list"])),
+                    88..=95 => format!("read~{}", r.pick(&["vis", "hid", "cnt", "list", "snap", "snap"])),
                     _ => "next".to_string(),
                 });
             }
@@ -814,9 +815,9 @@ pub fn gen_conc(seed: u64, ncases: u64, scheds_per_prog: u64, out: &Sink) {
 /// (six shapes: Standard; Iceberg with hidden >= display, with hidden < display, with display 0; auto-replenishing
 /// Reserve whose tranche equals its display; manual Reserve), alone or with a Standard order behind it; thread 0
 /// issues one of seven calls (add Standard / add Iceberg / amend X up, to the same value, down, to 0 / cancel X),
-/// thread 1 one of nine (match 1, match exactly X's display, match 100, cancel X, amend X, list, add Iceberg, move X to
-/// another price, replace X at the level's price) and
-/// thread 0 may also match; a seventh target shape is the Standard order amended beforehand (two tickets) - 1008 programs.
+/// thread 1 one of ten (match 1, match exactly X's display, match 100, cancel X, amend X, list, add Iceberg, move X to
+/// another price, replace X at the level's price, snapshot()) and
+/// thread 0 may also match; a seventh target shape is the Standard order amended beforehand (two tickets) - 1120 programs.
 /// Each runs under every schedule with at most two context switches from a grid: thread 0 runs k steps, thread 1 runs
 /// m steps, thread 0 finishes, thread 1 finishes. quick / search: `nprogs` programs drawn without replacement, k in
 /// 0..=7, m in {1..6, 8, 10, 12, 14, 16, 40}; thorough: the shard's slice of all programs, k in 0..=8, m in 0..=16 and 40.
@@ -862,6 +863,7 @@ pub fn gen_concx(seed: u64, nprogs: u64, thorough: bool, out: &Sink) {
                 format!("add~{}", show_order(&mk_order(5, pool_id(51), price, 3, 2, 0, None, false, Side::Sell, 4, g))),
                 format!("mv.price~{}~{}", xi, price + 1),
                 format!("same.replace~{}~2~{}", xi, show_side(Side::Buy)),
+                "read~snap".to_string(),
             ];
             for a in &op0s { for b in &op1s { programs.push((ix, with_y, a.clone(), b.clone())); } }
         }
@@ -871,18 +873,32 @@ pub fn gen_concx(seed: u64, nprogs: u64, thorough: bool, out: &Sink) {
         let shard = seed % 1000 % 14;
         (0..total).filter(|p| p % 14 == shard).map(|p| p as usize).collect()
     } else {
-        // a seeded sample without replacement
+        // a stratified sample: EVERY pair (call of thread 0, call of thread 1) occurs in every run, each on one target
+        // shapes drawn for it (two of the 7 shapes x with/without a second order); `nprogs` caps the number of programs
         let mut r = Rng::new(seed ^ 0x434f_4e58);
-        let mut idx: Vec<usize> = (0..total as usize).collect();
+        let n0 = 8usize; // calls of thread 0
+        let n1 = 10usize; // calls of thread 1
+        let per_shape = n0 * n1;
         let mut pick = Vec::new();
-        for _ in 0..nprogs.min(total) {
-            let j = r.below(idx.len() as u64) as usize;
-            pick.push(idx.swap_remove(j));
+        for a in 0..n0 {
+            for b in 0..n1 {
+                // two different (shape, with_y) blocks per pair
+                let nblocks = total as usize / per_shape;
+                let s1 = r.below(nblocks as u64) as usize;
+                let s2 = (s1 + 1 + r.below(nblocks as u64 - 1) as usize) % nblocks;
+                pick.push(s1 * per_shape + a * n1 + b);
+                pick.push(s2 * per_shape + a * n1 + b);
+            }
+        }
+        // a rotating subset when fewer are asked for
+        if (nprogs as usize) < pick.len() {
+            let off = r.below(pick.len() as u64) as usize;
+            pick = (0..nprogs as usize).map(|i| pick[(off + i * 7) % pick.len()]).collect();
         }
         pick
     };
-    let ks: Vec<u64> = if thorough { (0..=8).collect() } else { (0..=7).collect() };
-    let ms: Vec<u64> = if thorough { (0..=16).chain([40]).collect() } else { vec![1, 2, 3, 4, 5, 6, 8, 10, 12, 14, 16, 40] };
+    let ks: Vec<u64> = if thorough { (0..=8).collect() } else { (0..=5).collect() };
+    let ms: Vec<u64> = if thorough { (0..=16).chain([40]).collect() } else { vec![1, 2, 4, 8, 40] };
     let mut case = 0u64;
     for p in chosen {
         let (ix, with_y, op0, op1) = &programs[p];
